@@ -163,6 +163,9 @@ type dgram struct {
 	// with the time-service server SPI and algorithm is present and its MAC does not verify /
 	// verifies; authMalformed: the option's data length is not 28
 	authInvalid, authValid, authMalformed bool
+	// SCION, re-framed packets (gen_reframe.go): the NTP header the UDP length field delimits from the
+	// start of the L4 data was written by the harness acting as an on-path attacker without keys
+	forgedHdr bool
 }
 
 type peer struct {
@@ -289,7 +292,13 @@ type exchCfg struct {
 	nts      bool // client with NTS enabled (key exchange data preloaded through the ntske hook)
 	spao     bool // SCION: Auth.Enabled with a DRKey fetcher that has no daemon (no key becomes available)
 	spaoKey  bool // SCION: Auth.Enabled with a DRKey fetcher on a fake daemon connector: the host-host key is available
+	zone     string // zone of the client's local address ("lo": hardware timestamping requested on loopback, so
+	// the kernel delivers neither transmit nor receive timestamps and the client falls back to clock readings)
+	nowAll   bool // setNow's values script ALL clock readings of the exchange in order (else the first only)
 }
+
+// liveZone: zone of the local address the live clients are called with (set per exchange).
+var liveZone string
 
 // script decides, after seeing the request, which datagrams go back in which order.
 type script func(ri *reqInfo) (out []dgram, theta int64, S int64, genuineIL bool)
@@ -311,6 +320,8 @@ type exchResult struct {
 	deadlineAt time.Time
 	tr         string // "ip" | "scion"
 	hdr        string // transport-specific key=value tokens of the cli.exch op
+	rd         []int64 // every reading of the process clock during the call, in order
+	recvAt     int64   // the peer's clock reading right after it received the request
 }
 
 type callRes struct {
@@ -353,6 +364,10 @@ func errKind(err error) string {
 		return "size"
 	case strings.Contains(s, "unexpected response structure"):
 		return "response"
+	case strings.Contains(s, "unexpected response ID") || strings.Contains(s, "unexpected nonce length") || strings.Contains(s, "authentication failed"):
+		return "ntsProcess" // nts.ProcessResponse: other unique identifier / the authenticator does not verify
+	case strings.Contains(s, "packet does not contain") || strings.Contains(s, "invalid extension field length") || strings.Contains(s, "unexpected extension header type"):
+		return "ntsDecode" // nts.DecodePacket
 	case strings.Contains(s, "invalid packet authenticator") || strings.Contains(s, "authenticator"):
 		return "auth"
 	}
@@ -385,7 +400,7 @@ func (l ipLive) configure(cfg exchCfg, f *recFilter) {
 func (l ipLive) getPrev() client.VerifC03Prev  { return client.VerifC03PrevIP(l.c) }
 func (l ipLive) setPrev(p client.VerifC03Prev) { client.VerifC03SetPrevIP(l.c, p) }
 func (l ipLive) measure(ctx context.Context) (time.Time, time.Duration, error) {
-	la := &net.UDPAddr{IP: net.IPv4(127, 0, 0, 1).To4()}
+	la := &net.UDPAddr{IP: net.IPv4(127, 0, 0, 1).To4(), Zone: liveZone}
 	ra := net.UDPAddrFromAddrPort(thePeer.addr)
 	return client.VerifC03MeasureIP(ctx, l.c, la, ra)
 }
@@ -465,6 +480,8 @@ func exchange(c *lib.Ctx, lc liveClient, cfg exchCfg, sc script) (res exchResult
 		}
 	}
 	clk.reset(ov...)
+	liveZone = cfg.zone
+	defer func() { liveZone = "" }()
 	ctx := context.Background()
 	cancel := func() {}
 	if cfg.deadline != 0 {
@@ -483,6 +500,7 @@ func exchange(c *lib.Ctx, lc liveClient, cfg exchCfg, sc script) (res exchResult
 		return
 	}
 	R := wallNow().UnixNano()
+	res.recvAt = R
 	res.ri = lc.parse(buf[:n])
 	res.ri.from = from
 	res.ri.R = R
@@ -516,6 +534,9 @@ func exchange(c *lib.Ctx, lc liveClient, cfg exchCfg, sc script) (res exchResult
 		return
 	}
 	res.now0 = rd[0].UnixNano()
+	for _, t := range rd {
+		res.rd = append(res.rd, t.UnixNano())
+	}
 	if cfg.deadline != 0 && !sentAt.Before(res.deadlineAt.Add(-3*time.Millisecond)) {
 		// the peer was too slow for this deadline: the client may have timed out before the
 		// datagrams arrived; the recorded order would not be what the socket delivered
@@ -531,6 +552,9 @@ func exchange(c *lib.Ctx, lc liveClient, cfg exchCfg, sc script) (res exchResult
 
 // ---------------------------------------------------------------- op lines
 
+// scionBufLen: the SCION client's receive buffer (`buf := make([]byte, scion.MTU)`).
+const scionBufLen = 9216 - 20 - 8
+
 func prevStr(p client.VerifC03Prev, reference string) string {
 	ref := "other"
 	switch p.Reference {
@@ -544,10 +568,14 @@ func prevStr(p client.VerifC03Prev, reference string) string {
 
 // evIP renders the datagram facts for the model: d:<src>:<len>:<lvm>:<stratum>:<org>:<rx>:<tx>:<cRx>:<before>
 // or f:<before> (MSG_TRUNC: longer than the client's 48-byte buffer), then e:0 (deadline) if set.
-func evIP(p *peer, sent []dgram, cRx int64, deadlineSet bool, bufCap int) string {
+func evIP(p *peer, sent []dgram, cRx int64, deadlineSet bool, bufCap int, before string) string {
 	var ev []string
 	for _, d := range sent {
 		v := fmt.Sprintf(":%s:%s:%s", lib.Bool(d.ntsDec), lib.Bool(d.ntsUID), lib.Bool(d.ntsOpen))
+		if d.wire != nil && len(d.wire) > scionBufLen {
+			ev = append(ev, "f:"+before) // longer than the SCION client's receive buffer: MSG_TRUNC
+			continue
+		}
 		if d.wire != nil {
 			var lvm, st uint8
 			var org, rx, tx ntp.Time64
@@ -555,11 +583,11 @@ func evIP(p *peer, sent []dgram, cRx int64, deadlineSet bool, bufCap int) string
 				lvm, st = d.b[0], d.b[1]
 				org, rx, tx = be64(d.b[24:]), be64(d.b[32:]), be64(d.b[40:])
 			}
-			ev = append(ev, fmt.Sprintf("s:%s:%d:%d:%d:%s:%s:%s:%d:1", d.facts, len(d.b), lvm, st, f64(org), f64(rx), f64(tx), cRx)+v)
+			ev = append(ev, fmt.Sprintf("s:%s:%d:%d:%d:%s:%s:%s:%d:%s", d.facts, len(d.b), lvm, st, f64(org), f64(rx), f64(tx), cRx, before)+v)
 			continue
 		}
 		if len(d.b) > bufCap {
-			ev = append(ev, "f:1")
+			ev = append(ev, "f:"+before)
 			continue
 		}
 		var lvm, st uint8
@@ -568,7 +596,7 @@ func evIP(p *peer, sent []dgram, cRx int64, deadlineSet bool, bufCap int) string
 			lvm, st = d.b[0], d.b[1]
 			org, rx, tx = be64(d.b[24:]), be64(d.b[32:]), be64(d.b[40:])
 		}
-		ev = append(ev, fmt.Sprintf("d:%d:%d:%d:%d:%s:%s:%s:%d:1", p.srcNum(d.src), len(d.b), lvm, st, f64(org), f64(rx), f64(tx), cRx)+v)
+		ev = append(ev, fmt.Sprintf("d:%d:%d:%d:%d:%s:%s:%s:%d:%s", p.srcNum(d.src), len(d.b), lvm, st, f64(org), f64(rx), f64(tx), cRx, before)+v)
 	}
 	if deadlineSet {
 		ev = append(ev, "e:0")
@@ -600,7 +628,7 @@ func reachesNTP(p *peer, d dgram, ntsOn bool) bool {
 		return p.srcNum(d.src) == p.srcNum(srcServer) && len(d.b) >= 48 && (ntsOn || len(d.b) == 48) &&
 			len(d.b) <= nts.MaxPacketLen
 	}
-	return d.pathOK && len(d.b) >= 48
+	return d.pathOK && len(d.b) >= 48 && len(d.wire) <= scionBufLen
 }
 
 // echoes: C05's origin clause — the datagram echoes the outstanding request's transmit
@@ -657,7 +685,7 @@ func explain(p *peer, cfg exchCfg, res exchResult) (cands []usedCand) {
 		if d.wire != nil {
 			// SCION: whatever has the structure of a SCION/UDP packet with a whole NTP header,
 			// wherever it claims to come from — the address clause is judged by the oracle
-			if !(d.structOK && len(d.b) >= 48) {
+			if !(d.structOK && len(d.b) >= 48 && len(d.wire) <= scionBufLen) {
 				continue
 			}
 		} else if !reachesNTP(p, d, cfg.nts) {
@@ -919,9 +947,18 @@ func recordIP(c *lib.Ctx, tag string, cfg exchCfg, res exchResult) int {
 	if cfg.nts {
 		bufCap = nts.MaxPacketLen
 	}
+	// the deadline test of the (at most one) retry decision: with kernel timestamps the client reads the
+	// clock for cTxTime0, for the tx-timestamp fallback, and then only in that test — the third
+	// recorded reading is the one it compared with the deadline (under machine load the deadline may
+	// have passed by the time the first refused datagram is looked at)
+	before := "1"
+	if cfg.deadline != 0 && cfg.zone == "" && len(res.rd) >= 3 && res.rd[2] >= res.deadlineAt.UnixNano() {
+		before = "0"
+		c.Count(tag + ":deadline-passed-at-first-refusal")
+	}
 	op := fmt.Sprintf("cli.exch tr=%s il=%s nts=%s dl=%s filt=%s %s ref=same prev=%s now=%d ctx1=%d ev=%s",
 		res.tr, ilS, lib.Bool(cfg.nts), dlS, filt, res.hdr, prevStr(res.prev0, reference), res.now0, ctx1,
-		evIP(p, res.sent, cRxAll, cfg.deadline != 0, bufCap))
+		evIP(p, res.sent, cRxAll, cfg.deadline != 0, bufCap, before))
 	var ans string
 	switch {
 	case res.panicked != "":
@@ -952,7 +989,7 @@ func recordIP(c *lib.Ctx, tag string, cfg exchCfg, res exchResult) int {
 	// judged by the property's own predicate on the bytes the peer sent
 	if accepted {
 		if cands := explain(p, cfg, res); len(cands) > 0 {
-			echoOK, authOK, addrOK := false, false, false
+			echoOK, authOK, addrOK, hdrOK := false, false, false, false
 			var descr []string
 			for _, u := range cands {
 				d := res.sent[u.idx]
@@ -966,6 +1003,9 @@ func recordIP(c *lib.Ctx, tag string, cfg exchCfg, res exchResult) int {
 				if d.wire == nil || d.addrOK {
 					addrOK = true
 				}
+				if !(d.forgedHdr && (cfg.nts || cfg.spaoKey)) {
+					hdrOK = true
+				}
 				descr = append(descr, fmt.Sprintf("datagram %d read as interleaved=%v: origin=%s auth-invalid=%v from-queried-host-to-client=%v", u.idx, u.il, f64(be64(d.b[24:])), d.authInvalid, d.wire == nil || d.addrOK))
 			}
 			detail := map[string]any{"used": descr, "request_interleaved": res.ri.interleavedRq, "request_tx": f64(res.ri.tx),
@@ -978,6 +1018,11 @@ func recordIP(c *lib.Ctx, tag string, cfg exchCfg, res exchResult) int {
 			if !addrOK {
 				c.Fail("C05:scion:accepted-response-from-other-host",
 					"the SCION client took its measurement from a datagram whose source is not the queried ISD-AS and host (as an IP address, an IPv4 address and its IPv4-mapped form being the same) or which is not addressed to the client",
+					[]string{opReq, op}, detail)
+			}
+			if !hdrOK {
+				c.Fail("C05:scion:evaluated-header-not-authenticated",
+					"a SCION client with NTS and/or the packet authenticator key took its measurement from an NTP header written by an on-path attacker without keys: the authenticator was verified over other bytes of the datagram than the header that was evaluated (UDP length field smaller than the L4 data)",
 					[]string{opReq, op}, detail)
 			}
 			if !authOK {
